@@ -21,6 +21,7 @@ for p in mutants/*.patch; do
 done
 for d in seeded/*/; do
   [ -f "$d/patch.diff" ] || continue
+  grep -q obsolete_after "$d/meta.json" && continue
   prop=$(/venv/bin/python -c "import json,sys; print(json.load(open('$d/meta.json'))['property'])")
   run_one $d/patch.diff $prop >> $OUT.tmp
 done
